@@ -286,6 +286,17 @@ func (g *gen) ethTx(k detx.Key, kind, bad string, to *common.Address, value *big
 
 // endBlock shuffles nothing (order is part of the history), executes the block on the parent instance and records it.
 func (g *gen) endBlock(dt time.Duration, note string) detx.Obs {
+	for k := g.rng.Intn(3); k > 0 && g.c.Height > 0; k-- { // background traffic
+		from := g.anyUser()
+		switch g.rng.Intn(4) {
+		case 0:
+			g.tx(from, stakingtypes.NewMsgDelegate(from.Addr(), g.valAddr(), fxFrac(int64(1000+g.rng.Intn(100000)))))
+		case 1:
+			g.tx(from, distrtypes.NewMsgWithdrawDelegatorReward(from.Addr(), g.valAddr()))
+		default:
+			g.tx(from, banktypes.NewMsgSend(from.Acc(), g.anyUser().Acc(), sdk.NewCoins(fxFrac(int64(1+g.rng.Intn(999))))))
+		}
+	}
 	act := g.c.ActiveVals()
 	b := detx.Block{Height: g.c.Height + 1, TimeUnix: g.c.Time.Add(dt).Unix(), Proposer: act[g.rng.Intn(len(act))], Note: note}
 	if g.rng.Intn(4) == 0 && len(act) > 2 {
@@ -621,6 +632,18 @@ func (g *gen) run() {
 		ChainName: ethChain, BaseFee: sdkmath.ZeroInt()})
 	g.tx(g.users[1], &crosschaintypes.MsgRequestBatch{Sender: g.users[1].Addr(), Denom: fxtypes.DefaultDenom, MinimumFee: sdkmath.NewInt(1), FeeReceive: g.ext[0],
 		ChainName: ethChain, BaseFee: sdkmath.ZeroInt()}) // not a bridger
+	// confirm the second oracle set (PowerDiff path) by oracle 0 and a seeded subset: only the others are slashed later
+	if oset := eth.GetLatestOracleSet(g.c.Ctx()); oset != nil && oset.Nonce > 1 {
+		if cp, err := oset.GetCheckpoint(eth.GetGravityID(g.c.Ctx())); err == nil {
+			for i := range g.oracles {
+				if i == 0 || g.rng.Intn(2) == 0 {
+					sig, _ := crosschaintypes.NewEthereumSignature(cp, detx.ECDSA(g.seed, fmt.Sprintf("oracle%d", i)))
+					g.tx(g.bridgers[i], &crosschaintypes.MsgOracleSetConfirm{Nonce: oset.Nonce, BridgerAddress: g.bridgers[i].Addr(), ExternalAddress: g.ext[i],
+						Signature: hex.EncodeToString(sig), ChainName: ethChain})
+				}
+			}
+		}
+	}
 	g.endBlock(short, "request batch")
 
 	for _, batch := range eth.GetOutgoingTxBatches(g.c.Ctx()) {
@@ -635,18 +658,21 @@ func (g *gen) run() {
 					ExternalAddress: g.ext[i], Signature: hex.EncodeToString(sig), ChainName: ethChain})
 			}
 		}
-		n4, h4 := g.nextEvent()
-		bn, tc := batch.BatchNonce, batch.TokenContract
-		g.claimAll(func(b string) crosschaintypes.ExternalClaim {
-			return &crosschaintypes.MsgSendToExternalClaim{EventNonce: n4, BlockHeight: h4, BatchNonce: bn, TokenContract: tc, BridgerAddress: b, ChainName: ethChain}
-		}, 0)
 	}
 	// a second round into the pool that stays unbatched
 	for k := 0; k < 2; k++ {
 		u := g.anyUser()
 		g.tx(u, &crosschaintypes.MsgSendToExternal{Sender: u.Addr(), Dest: g.ext[1], Amount: fxFrac(int64(10 + g.rng.Intn(90))), BridgeFee: fxFrac(int64(1 + g.rng.Intn(5))), ChainName: ethChain})
 	}
-	g.endBlock(short, "confirm batch + batch executed claim")
+	g.endBlock(short, "confirm batch")
+	for _, batch := range eth.GetOutgoingTxBatches(g.c.Ctx()) {
+		n4, h4 := g.nextEvent()
+		bn, tc := batch.BatchNonce, batch.TokenContract
+		g.claimAll(func(b string) crosschaintypes.ExternalClaim {
+			return &crosschaintypes.MsgSendToExternalClaim{EventNonce: n4, BlockHeight: h4, BatchNonce: bn, TokenContract: tc, BridgerAddress: b, ChainName: ethChain}
+		}, 0)
+	}
+	g.endBlock(short, "batch executed claim")
 
 	// ---- phase 8: fx governance messages, passing, rejected and failing on execution
 	cp := eth.GetParams(g.c.Ctx())
@@ -711,6 +737,21 @@ func (g *gen) run() {
 	from := g.anyUser()
 	g.tx(from, banktypes.NewMsgSend(from.Acc(), g.anyUser().Acc(), sdk.NewCoins(fxFrac(5))))
 	g.endBlock(short, "final")
+	ctx := g.c.Ctx()
+	online, offline := 0, 0
+	for _, o := range eth.GetAllOracles(ctx, false) {
+		if o.Online {
+			online++
+		} else {
+			offline++
+		}
+	}
+	g.out.Count(fmt.Sprintf("final: oracles online=%d offline=%d", online, offline))
+	g.out.Count(fmt.Sprintf("final: oracle-set-nonce=%d observed-event-nonce=%d", eth.GetLatestOracleSetNonce(ctx), eth.GetLastObservedEventNonce(ctx)))
+	if g.debug {
+		fmt.Printf("final: oracles online=%d offline=%d oracle-set-nonce=%d observed-event-nonce=%d slashed-at=%d\n", online, offline,
+			eth.GetLatestOracleSetNonce(ctx), eth.GetLastObservedEventNonce(ctx), eth.GetLastOracleSlashBlockHeight(ctx))
+	}
 }
 
 func mustAny(c crosschaintypes.ExternalClaim) *codectypes.Any {
